@@ -111,8 +111,9 @@ def build_flow(backend, bounded, affine, dt, d, seed):
     from aspire.transforms import FlowTransform
 
     F, fxp = get_flow_wrapper(backend)
-    params = ["a", "b"][:d]
-    pb = {p: [float(l), float(h)] for p, l, h in zip(params, LO[:d], HI[:d])}
+    # parameter names whose alphabetical order differs from their position, bounds given in another order
+    params = ["zeta", "alpha"][:d]
+    pb = {p: [float(l), float(h)] for p, l, h in reversed(list(zip(params, LO[:d], HI[:d])))}
     ns = "torch" if backend == "zuko" else "jax"
     dtf = FlowTransform(parameters=params, prior_bounds=pb if bounded != "off" else None, bounded_to_unbounded=bounded != "off",
                         bounded_transform=bounded if bounded != "off" else "logit", affine_transform=affine, xp=fxp,
@@ -137,9 +138,9 @@ def run_config(cfg):
             from aspire import Aspire
             from aspire.samples import Samples
 
-            params = ["a", "b"][:d]
+            params = ["zeta", "alpha"][:d]
             a = Aspire(log_likelihood=lambda s: 0, log_prior=lambda s: 0, dims=d, parameters=params,
-                       prior_bounds={p: [float(l), float(h)] for p, l, h in zip(params, LO[:d], HI[:d])} if bounded != "off" else None,
+                       prior_bounds={p: [float(l), float(h)] for p, l, h in reversed(list(zip(params, LO[:d], HI[:d])))} if bounded != "off" else None,
                        bounded_to_unbounded=bounded != "off", bounded_transform=bounded if bounded != "off" else "logit",
                        flow_backend=backend, dtype=dt, xp=get_xp("numpy"), **({"seed": seed, "hidden_features": [16, 16], "transforms": 2} if backend == "zuko" else {}))
             a.fit(Samples(x=x, parameters=params, xp=get_xp("numpy")), n_epochs=2, batch_size=64)
